@@ -2,6 +2,7 @@ package spec
 
 import (
 	"fmt"
+	"slices"
 	"strings"
 
 	"github.com/gardenbed/emerge/internal/regex/parser/nfa"
@@ -61,8 +62,16 @@ func (s *Spec) DFA() (*auto.DFA, map[grammar.Terminal][]auto.State, error) {
 	}
 
 	// Map each terminal to a set of final states while ensuring each final state identifies a single terminal.
+	// The final states are visited in ascending order, so that the result does not depend on the iteration order of the map.
+	finals := make([]auto.State, 0, len(stateDefs))
+	for f := range stateDefs {
+		finals = append(finals, f)
+	}
+	slices.Sort(finals)
+
 	termMap := make(map[grammar.Terminal][]auto.State)
-	for f, defs := range stateDefs {
+	for _, f := range finals {
+		defs := stateDefs[f]
 		switch len(defs) {
 		case 0:
 		case 1:
